@@ -4,6 +4,7 @@ Translator leg for C08: facts extracted from the Rust source by tools/gen_consta
 structure in the Rust breaks exactly these obligations, independently of the correspondence run.
 -/
 import WowSrp.Gen.Constants
+import WowSrp.Gen.Facts
 namespace WowSrp
 
 /-- C08: both TBC halves key themselves with HMAC(seed, session key) -/
